@@ -599,6 +599,7 @@ func checkC16(w *World, r *Report) {
 	checkLoadedTreeIsParsed(w, r)
 	checkCompileUsesOwnSource(w, r)
 	checkReaderAcceptsWhatWriterWrites(w, r)
+	checkConstructorsAgreeOnTree(w, r)
 }
 
 func (w *World) compareWire(r *Report, wfd, rfd *ast.FuncDecl, wo, ro []wireOp, helper bool, helperPairOK bool) bool {
@@ -1729,4 +1730,98 @@ func checkReaderAcceptsWhatWriterWrites(w *World, r *Report) {
 		})
 	}
 	r.floor("error returns on the deserialising side", n, 3)
+}
+
+// checkConstructorsAgreeOnTree — R16.12: a template built from compiled bytes carries everything
+// a template built from source carries.  Every place that builds a Template and stores a tree in
+// it is compared with its siblings: a field that some constructor fills with a value computed
+// from the tree (an index of the top-level blocks, a table of macros, a flag "extends something")
+// is filled by every constructor that stores a tree — in particular by LoadFromCompiled.  A
+// derived field missing at one site is zero there, and the render code that reads it sees a
+// template without blocks exactly when the template came from compiled bytes.
+func checkConstructorsAgreeOnTree(w *World, r *Report) {
+	type site struct {
+		fn     *ssa.Function
+		al     *ssa.Alloc
+		tree   ssa.Value
+		fields map[int]ssa.Value
+	}
+	var sites []*site
+	tmpl := w.named("Template")
+	st := tmpl.Underlying().(*types.Struct)
+	for _, fn := range w.pkgFuncs() {
+		instrsOf(fn, func(in ssa.Instruction) {
+			al, ok := in.(*ssa.Alloc)
+			if !ok || !types.Identical(deref(al.Type()), tmpl) || al.Referrers() == nil {
+				return
+			}
+			s := &site{fn: fn, al: al, fields: map[int]ssa.Value{}}
+			for _, ref := range *al.Referrers() {
+				fa, ok := ref.(*ssa.FieldAddr)
+				if !ok || fa.Referrers() == nil {
+					continue
+				}
+				for _, r2 := range *fa.Referrers() {
+					if store, ok := r2.(*ssa.Store); ok && store.Addr == ssa.Value(fa) {
+						s.fields[fa.Field] = store.Val
+						if st.Field(fa.Field).Name() == "nodes" {
+							s.tree = store.Val
+						}
+					}
+				}
+			}
+			if s.tree != nil && !isNilConst(s.tree) {
+				sites = append(sites, s)
+			}
+		})
+	}
+	dependsOn := func(v, on ssa.Value) bool {
+		seen := map[ssa.Value]bool{}
+		var walk func(v ssa.Value, d int) bool
+		walk = func(v ssa.Value, d int) bool {
+			if v == nil || seen[v] || d > 8 {
+				return false
+			}
+			seen[v] = true
+			if v == on || sameValue(unspill(v), unspill(on)) {
+				return true
+			}
+			if in, ok := v.(ssa.Instruction); ok {
+				for _, op := range in.Operands(nil) {
+					if *op != nil && walk(*op, d+1) {
+						return true
+					}
+				}
+			}
+			return false
+		}
+		return walk(v, 0)
+	}
+	derived := map[int]string{}
+	for _, s := range sites {
+		for f, v := range s.fields {
+			if st.Field(f).Name() == "nodes" {
+				continue
+			}
+			if dependsOn(v, s.tree) {
+				derived[f] = ssaName(s.fn)
+			}
+		}
+	}
+	for _, s := range sites {
+		construct := "the template is built with every field its siblings derive from the tree"
+		var missing []string
+		for f, by := range derived {
+			if _, ok := s.fields[f]; !ok {
+				missing = append(missing, st.Field(f).Name()+" (computed from the tree in "+by+")")
+			}
+		}
+		sort.Strings(missing)
+		if len(missing) > 0 {
+			r.bad("R16.12", ssaName(s.fn), construct, w.posOf(s.al.Pos()), "this constructor stores a tree but leaves "+strings.Join(missing, ", ")+" empty: code that reads the field sees a different template here than for the same source built elsewhere — a compiled template is not interchangeable with its source")
+		} else {
+			r.ok("R16.12", ssaName(s.fn), construct, w.posOf(s.al.Pos()), fmt.Sprintf("%d field(s) derived from the tree anywhere; all set here", len(derived)), len(derived) > 0)
+		}
+	}
+	r.floor("constructions of a Template around a tree", len(sites), 4)
 }
